@@ -8,7 +8,7 @@
 #include "vsched.h"
 
 static size_t g_maxSize; static int g_ringOnly; static size_t g_ringSize = 14u << 20;
-typedef struct { vparams P; hscript S; size_t n; int fam; int dictMode; size_t dictLen; int midReset; int sharedPool; int paramChange; int poll; int ring; char desc[700]; } mtw;
+typedef struct { vparams P; hscript S; size_t n; int fam; int dictMode; size_t dictLen; int midReset; int sharedPool; int paramChange; int chgLevel; size_t farRepeat; int poll; int ring; char desc[700]; } mtw;
 
 static void gen_workload(vrng* r, mtw* W)
 {
@@ -32,15 +32,18 @@ static void gen_workload(vrng* r, mtw* W)
         snprintf(W->desc, sizeof W->desc, "RING n=%zu params=[%s] script{%s} poll=%d", W->n, P->desc, W->S.desc, W->poll);
         return;
     }
-    int const level = vr_chance(r, 1, 6) ? (int)vr_range(r, 4, 9) : (int)vr_range(r, -3, 3); P->level = level; vp_add(P, ZSTD_c_compressionLevel, level);
+    /* stratum "level raised in mid-frame on far repeats" (1 workload in 10): base level with a 512 KiB window in the level table, no explicit window */
+    int const far = vr_chance(r, 1, 10);
+    int const level = far ? (int)vr_range(r, -3, 1) : vr_chance(r, 1, 6) ? (int)vr_range(r, 4, 9) : (int)vr_range(r, -3, 3); P->level = level; vp_add(P, ZSTD_c_compressionLevel, level);
     P->nbWorkers = (int)vr_range(r, 1, vr_chance(r, 1, 4) ? 6 : 3); vp_add(P, ZSTD_c_nbWorkers, P->nbWorkers);
     {   int const js = (int)vr_u(r, 4); if (js == 0) vp_add(P, ZSTD_c_jobSize, 1); else if (js == 1) vp_add(P, ZSTD_c_jobSize, (int)vr_range(r, 1 << 20, 3 << 20)); else if (js == 2) vp_add(P, ZSTD_c_jobSize, 1500000); }   /* jobs longer than four blocks exercise intra-job progress reporting */
     if (vr_chance(r, 2, 3)) vp_add(P, ZSTD_c_overlapLog, (int)vr_range(r, 0, 9));
     if (vr_chance(r, 1, 3)) vp_add(P, ZSTD_c_rsyncable, 1);
-    if (vr_chance(r, 1, 3)) { P->ldm = 1; vp_add(P, ZSTD_c_enableLongDistanceMatching, 1); if (vr_chance(r, 1, 2)) vp_add(P, ZSTD_c_windowLog, (int)vr_range(r, 18, 22)); }
+    if (far) { /* window left to the level table */ }
+    else if (vr_chance(r, 1, 3)) { P->ldm = 1; vp_add(P, ZSTD_c_enableLongDistanceMatching, 1); if (vr_chance(r, 1, 2)) vp_add(P, ZSTD_c_windowLog, (int)vr_range(r, 18, 22)); }
     else if (vr_chance(r, 1, 3)) { P->windowLog = (int)vr_range(r, 12, 20); vp_add(P, ZSTD_c_windowLog, P->windowLog); }
     P->checksum = (int)vr_u(r, 2); vp_add(P, ZSTD_c_checksumFlag, P->checksum);
-    if (vr_chance(r, 1, 4)) vp_add(P, ZSTD_c_strategy, (int)vr_range(r, 1, 5));
+    if (!far && vr_chance(r, 1, 4)) vp_add(P, ZSTD_c_strategy, (int)vr_range(r, 1, 5));
     {   int o = 0; for (int i = 0; i < P->n && o < (int)sizeof(P->desc) - 16; i++) o += snprintf(P->desc + o, sizeof(P->desc) - (size_t)o, "%s%d=%d", i ? "," : "", (int)P->p[i], P->v[i]); }
     W->fam = (int)vr_u(r, DF_NB); if (W->fam == DF_RANDOM && vr_chance(r, 1, 2)) W->fam = DF_TEXT;
     /* sized for 2..12 jobs, and for round-buffer wrap */
@@ -49,7 +52,13 @@ static void gen_workload(vrng* r, mtw* W)
     for (int i = 0; i < W->S.nOut; i++) if (W->S.outPat[i] < 1024) W->S.outPat[i] = vr_chance(r, 1, 2) ? 1024 + vr_u(r, 4096) : 1 + vr_u(r, 64) + 700;    /* small outputs: the caller blocks in flushProduced */
     W->dictMode = vr_chance(r, 1, 4) ? 1 + (int)vr_u(r, 2) : 0; W->dictLen = W->dictMode ? 1 + vr_u(r, 60000) : 0;
     W->midReset = vr_chance(r, 1, 5); W->sharedPool = vr_chance(r, 1, 6); W->paramChange = vr_chance(r, 1, 5); W->poll = vr_chance(r, 1, 3);
-    snprintf(W->desc, sizeof W->desc, "n=%zu fam=%s params=[%s] script{%s} dict=%d/%zu midReset=%d sharedPool=%d paramChange=%d poll=%d", W->n, v_df_name[W->fam], P->desc, W->S.desc, W->dictMode, W->dictLen, W->midReset, W->sharedPool, W->paramChange, W->poll);
+    W->chgLevel = level + 1;
+    /* half of the mid-frame changes raise the level by a lot (bigger window in the level table) on data whose only repeats lie at a distance the header's window
+     * (written by the first job) does not reach: later jobs must keep to the announced window */
+    if (far) { W->paramChange = 1; W->chgLevel = (int)vr_range(r, 11, 15); if (W->n < 1100000) { W->n = 1100000 + vr_u(r, 400000); h_gen_script(r, W->n, &W->S, 0); for (int i = 0; i < W->S.nOut; i++) if (W->S.outPat[i] < 1024) W->S.outPat[i] += 1024; }
+        if (W->S.nseg < 2) { size_t const l0 = W->S.seg[0].len; W->S.seg[1] = W->S.seg[0]; W->S.seg[0].len = l0 / 4; W->S.seg[0].dir = ZSTD_e_continue; W->S.seg[1].len = l0 - l0 / 4; W->S.nseg = 2; }
+        W->farRepeat = (512u << 10) + 1 + (size_t)vr_u64(r, V_MIN(W->n - (512u << 10) - 250000, (size_t)700000)); W->dictMode = 0; W->dictLen = 0; W->midReset = 0; }
+    snprintf(W->desc, sizeof W->desc, "n=%zu fam=%s params=[%s] script{%s} dict=%d/%zu midReset=%d sharedPool=%d paramChange=%d(level->%d, repeats at %zu) poll=%d", W->n, v_df_name[W->fam], P->desc, W->S.desc, W->dictMode, W->dictLen, W->midReset, W->sharedPool, W->paramChange, W->chgLevel, W->farRepeat, W->poll);
 }
 
 static const char* g_desc = "";
@@ -84,7 +93,7 @@ static size_t execute(const mtw* W, const uint8_t* x, const uint8_t* dict, uint8
         size_t inPos = 0, outPos = 0; int oi = 0; long calls = 0;
         for (int s = 0; s < W->S.nseg && !ZSTD_isError(cs); s++) {
             ZSTD_inBuffer in = { x + inPos, W->S.seg[s].len, 0 }; int const dir = W->S.seg[s].dir;
-            if (W->paramChange && s == W->S.nseg / 2 && s > 0) { sched_set_op("ZSTD_CCtx_setParameter(mid-frame)"); ZSTD_CCtx_setParameter(c, ZSTD_c_compressionLevel, W->P.level + 1); ZSTD_CCtx_setParameter(c, ZSTD_c_searchLog, 2); }
+            if (W->paramChange && s == W->S.nseg / 2 && s > 0) { sched_set_op("ZSTD_CCtx_setParameter(mid-frame)"); ZSTD_CCtx_setParameter(c, ZSTD_c_compressionLevel, W->chgLevel); if (!W->farRepeat) ZSTD_CCtx_setParameter(c, ZSTD_c_searchLog, 2); }
             for (;;) {
                 size_t const room = W->S.outPat[oi++ % W->S.nOut]; ZSTD_outBuffer out = { dst + outPos, V_MIN(room, cap - outPos), 0 };
                 sched_set_op(dir == ZSTD_e_continue ? "ZSTD_compressStream2(continue)" : dir == ZSTD_e_flush ? "ZSTD_compressStream2(flush)" : "ZSTD_compressStream2(end)");
@@ -131,6 +140,7 @@ static void run_case(long idx, long nsched)
         static uint8_t mk[256][1024]; static uint8_t tl[4][256][1024]; for (int i = 0; i < 256; i++) { vr_fill(&dr, mk[i], 1024); for (int q = 0; q < 4; q++) vr_fill(&dr, tl[q][i], 1024); }
         size_t const sec = 512u << 10; int const q = W.P.nbWorkers;
         for (size_t p = 0; p < W.n; p += 2048) { size_t const k = p / sec; size_t const cell = (p % sec) / 2048; size_t l = V_MIN((size_t)1024, W.n - p); memcpy(g_x + p, mk[cell], l); if (p + 1024 < W.n) { l = V_MIN((size_t)1024, W.n - p - 1024); memcpy(g_x + p + 1024, tl[k % (size_t)q][cell], l); } } }
+    else if (W.farRepeat) { size_t const D = W.farRepeat; vr_fill(&dr, g_x, V_MIN(W.n, D)); for (size_t i = D; i < W.n; i++) g_x[i] = g_x[i - D]; for (size_t i = D; i < W.n; i += 1 + vr_u(&dr, 20000)) g_x[i] ^= 0x55; v_stat("far_repeat_level_raise_workloads", 1); }
     else gen_data(&dr, g_x, W.n, W.fam); if (W.dictLen) { gen_data(&dr, g_dict, W.dictLen, W.fam); memcpy(g_dict, g_x + W.n / 3, V_MIN(W.dictLen, W.n / 3)); if (g_dict[0] == 0x37 && g_dict[1] == 0xA4) g_dict[0] ^= 1; }
     sched_result SR;
     if (g_refWorkload != wid) {      /* reference schedule of this workload (first use in this process) */
